@@ -7,6 +7,7 @@ Binding B: random integer tables / node spacings / queries through the real code
            validated by TLC against the same operators (scaled comparison) + canary.
 """
 import math
+import os
 import random
 from fractions import Fraction
 
@@ -202,6 +203,112 @@ def run_traces(ctx, n_lin, n_exp):
             raise Machinery('canary accepted: trace validation is vacuous')
 
 
+# ----------------------------------------------------------------------------
+# long-lived opacity objects: mode switches, sub-ranges and queries in any order (spec/Functional.tla walks)
+# ----------------------------------------------------------------------------
+
+H_TN = [200, 300, 700, 800]
+H_PN = [1, 3, 6]
+H_TAB = [[[3, 9, 2, 7], [8, 1, 6, 4], [5, 7, 3, 9]], [[1, 4, 9, 2], [6, 6, 1, 8], [2, 9, 4, 3]], [[7, 2, 5, 5], [3, 8, 8, 1], [9, 1, 2, 6]]]
+H_QUERIES = [[(100, 0), (250, 0), (900, 0), (100, 2), (250, 2), (900, 2), (100, 8), (250, 8), (900, 8)],     # one per region
+             [(200, 1), (300, 3), (800, 6), (200, 0), (800, 7), (500, 1), (500, 6), (200, 4), (800, 2)],     # nodes and edges
+             [(450, 2), (450, 5), (760, 4), (210, 4), (650, 0), (650, 7), (150, 5), (850, 5), (299, 3)]]     # inside the cells
+
+
+def history_scenarios(tmpdir):
+    from .. import history
+    from ..fx_files import write_pickle_opacity
+    from taurex.cache import OpacityCache, GlobalCache
+
+    def table():
+        K = len(H_TAB)
+        x = np.zeros((len(H_PN), len(H_TN), K))
+        for k, tab in enumerate(H_TAB):
+            x[:, :, k] = np.array(tab, dtype=float)
+        return np.arange(1, K + 1) * 100.0, x
+
+    def ask(op, wn, sub, qs):
+        out = []
+        for (T, y) in qs:
+            if sub is None:
+                out.append(np.asarray(op.opacity(float(T), p_of(y)), dtype=float))
+            else:
+                out.append(np.asarray(op.opacity(float(T), p_of(y), wn[sub[0]:sub[1]]), dtype=float))
+        return out
+
+    class Direct(history.Scenario):
+        """ONE GridOpacity / GridKTable object; the mode is changed with set_interpolation_mode()."""
+
+        def __init__(self, layout):
+            self.name = 'opacity-object:' + layout
+            self.layout = layout
+            self.dims = [['linear', 'exp', 'linear'][:2] + ['exp'], [None, (1, 3), (0, 2)], [0, 1, 2]]
+            self.dims[0] = ['linear', 'exp']
+
+        def fresh(self, v):
+            op, wn = build(H_TN, H_PN, H_TAB, v[0], 1.0, self.layout)
+            op._verif = dict(wn=wn, sub=v[1], q=v[2])
+            return op
+
+        def set(self, op, d, value, values):
+            if d == 0:
+                op.set_interpolation_mode(value)
+            elif d == 1:
+                op._verif['sub'] = value
+            else:
+                op._verif['q'] = value
+
+        def observe(self, op):
+            return ask(op, op._verif['wn'], op._verif['sub'], H_QUERIES[op._verif['q']])
+
+    class Cached(history.Scenario):
+        """The object served by OpacityCache for a pickle file; the mode is changed with OpacityCache.set_interpolation()."""
+        name = 'opacity-cache:pickle'
+        dims = [['linear', 'exp'], [None, (1, 3), (0, 2)], [0, 1, 2]]
+
+        def __init__(self):
+            wn, x = table()
+            self.wn = wn
+            self.path = os.path.join(tmpdir, 'xsec')
+            os.makedirs(self.path, exist_ok=True)
+            write_pickle_opacity(self.path, 'HVX', wn, H_TN, [p_of(c) for c in H_PN], x)
+
+        def fresh(self, v):
+            OpacityCache().clear_cache()
+            OpacityCache().set_opacity_path(self.path)
+            OpacityCache().set_interpolation(v[0])
+            return dict(sub=v[1], q=v[2])
+
+        def set(self, st, d, value, values):
+            if d == 0:
+                OpacityCache().set_interpolation(value)
+            elif d == 1:
+                st['sub'] = value
+            else:
+                st['q'] = value
+
+        def observe(self, st):
+            return ask(OpacityCache()['HVX'], self.wn, st['sub'], H_QUERIES[st['q']])
+
+    return [Direct('xsec'), Direct('ktable'), Cached()]
+
+
+def run_histories(ctx, nwalks):
+    import shutil
+    import tempfile
+    from .. import history
+    from ..fixtures import reset_caches
+    tmp = tempfile.mkdtemp(prefix='c04hist_')
+    try:
+        scs = history_scenarios(tmp)
+        # the reference of a walk is a freshly built object: make sure it is the specification's value in both modes
+        n = history.run_history(ctx, scs, nwalks, clause='history_independent')
+    finally:
+        reset_caches()
+        shutil.rmtree(tmp, ignore_errors=True)
+    return n
+
+
 def run(ctx):
     q = ctx.tier == 'quick'
     ctx.bounds = dict(tier=ctx.tier, exhaustive='3x3 (lin) / 2x3 or 3x3 (exp) tables over small value sets, all node/edge/mid/outside queries',
@@ -222,6 +329,8 @@ def run(ctx):
                 uniq.append(v)
         run_vectors(ctx, uniq, cfg)
     run_traces(ctx, 1500 if q else 12000, 800 if q else 6000)
+    nh = run_histories(ctx, 10 if q else 60)
+    ctx.note('history walks on long-lived opacity objects (mode switches on the object and through the cache, sub-ranges, all regions): %d' % nh)
 
 
 def replay(ctx, violations):
